@@ -37,36 +37,35 @@ func (fc *FnCtx) closureOf(v ssa.Value) *closureInfo {
 // havocSynthetic havocs the keys recorded for synthetic loop id (pass 2) or everything (pass 1).
 func (fc *FnCtx) havocSynthetic(id string) {
 	g := fc.g
-	if g.pass == 1 || g.loopAll[id] {
-		old := g.get(fc.cur, "$alloc")
-		for _, k := range g.keyOrder {
-			if g.keys[k].kind == "stable" || g.keys[k].kind == "lockstate" {
-				continue
-			}
-			fc.cur.m[k] = g.fresh("hs."+k, g.keys[k].sort)
-		}
-		g.assumeRaw(fmt.Sprintf("(<= %s %s)", old, g.get(fc.cur, "$alloc")))
-		for _, k := range g.keyOrder {
-			if g.keys[k].ref != "" {
-				g.heapBound(k, g.get(fc.cur, k), g.get(fc.cur, "$alloc"))
-			}
-		}
-		return
-	}
 	old := g.get(fc.cur, "$alloc")
+	mod := g.loopHavocs(id)
 	for _, k := range g.keyOrder {
-		if g.loopMods[id][k] {
-			fc.cur.m[k] = g.fresh("hs."+k, g.keys[k].sort)
+		if g.keys[k].kind == "stable" || g.keys[k].kind == "lockstate" || !mod(k) {
+			continue
 		}
+		fc.cur.m[k] = g.fresh("hs."+k, g.keys[k].sort)
 	}
-	if g.loopMods[id]["$alloc"] {
+	if mod("$alloc") {
 		g.assumeRaw(fmt.Sprintf("(<= %s %s)", old, g.get(fc.cur, "$alloc")))
 	}
 	for _, k := range g.keyOrder {
-		if g.loopMods[id][k] && g.keys[k].ref != "" {
+		if mod(k) && g.keys[k].ref != "" {
 			g.heapBound(k, g.get(fc.cur, k), g.get(fc.cur, "$alloc"))
 		}
 	}
+}
+
+// loopHavocs: which keys a loop (or synthetic loop) may modify - everything in the discovery pass and for
+// loops that contain a full havoc; everything but the declared-private keys for loops whose havocs all spare
+// them; otherwise the keys recorded as written.
+func (g *Gen) loopHavocs(id string) func(k string) bool {
+	if g.pass == 1 || g.loopAll[id] {
+		return func(string) bool { return true }
+	}
+	if but, ok := g.loopAllBut[id]; ok {
+		return func(k string) bool { return !but[k] || g.loopMods[id][k] }
+	}
+	return func(k string) bool { return g.loopMods[id][k] }
 }
 
 func (fc *FnCtx) syntheticID(kind string, ins ssa.Instruction) string {
@@ -139,7 +138,7 @@ func (g *Gen) umapKeys(K, V types.Type) (string, string) {
 	kd := "UMd|" + typeKey(K) + "|" + typeKey(V)
 	kv := "UMv|" + typeKey(K) + "|" + typeKey(V)
 	g.regKey(kd, "(Array Int (Array "+ks+" Bool))", "umap")
-	g.regKey(kv, "(Array Int (Array "+ks+" "+vs+"))", "umap")
+	g.regKeyT(kv, "(Array Int (Array "+ks+" "+vs+"))", "umap", V)
 	return kd, kv
 }
 
@@ -357,6 +356,10 @@ func (fc *FnCtx) specialHigher(ins ssa.Instruction, callee *ssa.Function, cc *ss
 		return fc.retryDo(ins, cc, setResult)
 	case "(*sync.Once).Do":
 		return fc.onceDo(ins, cc, setResult)
+	case "sort.Slice", "sort.SliceStable":
+		if fc.sortSlice(ins, cc, setResult) {
+			return true
+		}
 	}
 	if strings.HasPrefix(callee.String(), "github.com/samber/lo.Map[") && fc.loMap(ins, cc, args, setResult) {
 		return true
@@ -490,5 +493,84 @@ func (fc *FnCtx) loMap(ins ssa.Instruction, cc *ssa.CallCommon, args []Val, setR
 		fc.assume(fmt.Sprintf("(forall ((|lm.i| Int)) (! %s :pattern ((select %s |lm.i|))))", rc, arr), "range")
 	}
 	setResult([]Val{{t: res, ty: rst}})
+	return true
+}
+
+// closureReadsOnly: the function (and the closures it creates) contains no store, send, map update or call
+// other than interface method calls / builtins / static calls into packages without bodies that the generator
+// treats as pure: calling it cannot change the verified state.
+func (g *Gen) closureReadsOnly(f *ssa.Function, depth int) bool {
+	if f == nil || f.Blocks == nil || depth > 3 {
+		return false
+	}
+	for _, b := range f.Blocks {
+		for _, ins := range b.Instrs {
+			switch x := ins.(type) {
+			case *ssa.Store:
+				// stores to the function's own fresh locals are fine
+				if al, ok := x.Addr.(*ssa.Alloc); !ok || al.Parent() != f {
+					return false
+				}
+			case *ssa.MapUpdate, *ssa.Send, *ssa.Go, *ssa.Defer:
+				return false
+			case *ssa.MakeClosure:
+				if c, ok := x.Fn.(*ssa.Function); !ok || !g.closureReadsOnly(c, depth+1) {
+					return false
+				}
+			case *ssa.Call:
+				if _, isB := x.Call.Value.(*ssa.Builtin); isB {
+					continue
+				}
+				if x.Call.IsInvoke() {
+					name := "(" + types.TypeString(x.Call.Value.Type(), nil) + ")." + x.Call.Method.Name()
+					if !g.isPureExternal(name) {
+						return false
+					}
+					continue
+				}
+				sc := x.Call.StaticCallee()
+				if sc == nil || !g.isPureExternal(sc.String()) {
+					return false
+				}
+			}
+		}
+	}
+	return true
+}
+
+// sortSlice models sort.Slice(x, less) for a `less` that only reads: the elements of x are permuted in place,
+// nothing else changes.  The permutation is an uninterpreted bijection of the index range.
+func (fc *FnCtx) sortSlice(ins ssa.Instruction, cc *ssa.CallCommon, setResult func([]Val)) bool {
+	g := fc.g
+	mi, ok := cc.Args[0].(*ssa.MakeInterface)
+	if !ok {
+		return false
+	}
+	st, ok := mi.X.Type().Underlying().(*types.Slice)
+	if !ok {
+		return false
+	}
+	ci := fc.closureOf(cc.Args[1])
+	if ci == nil || !g.closureReadsOnly(ci.fn, 0) {
+		return false
+	}
+	sl := fc.term(mi.X).t
+	k := g.arrKey(st.Elem())
+	h := g.get(fc.cur, k)
+	es := g.sortOf(st.Elem())
+	g.n++
+	pi, inv := fmt.Sprintf("|sort.pi!%d|", g.n), fmt.Sprintf("|sort.inv!%d|", g.n)
+	g.emit(fmt.Sprintf("(declare-fun %s (Int) Int)", pi))
+	g.emit(fmt.Sprintf("(declare-fun %s (Int) Int)", inv))
+	old := fmt.Sprintf("(select %s (sarr %s))", h, sl)
+	na := g.fresh(fc.prefix+"sort.arr", "(Array Int "+es+")")
+	n := fmt.Sprintf("(slen %s)", sl)
+	// positions outside the slice keep their content; position i holds the old element pi(i)
+	fc.assume(fmt.Sprintf("(forall ((|i| Int)) (! (=> (or (< |i| (soff %s)) (>= |i| (+ (soff %s) %s))) (= (select %s |i|) (select %s |i|))) :pattern ((select %s |i|))))", sl, sl, n, na, old, na), "sort.Slice: outside the slice unchanged")
+	fc.assume(fmt.Sprintf("(forall ((|i| Int)) (! (=> (and (<= 0 |i|) (< |i| %s)) (and (<= 0 (%s |i|)) (< (%s |i|) %s) (= (%s (%s |i|)) |i|) (= (select %s (|ix| (soff %s) |i|)) (select %s (|ix| (soff %s) (%s |i|)))))) :pattern ((select %s (|ix| (soff %s) |i|))) :pattern ((%s |i|))))", n, pi, pi, n, inv, pi, na, sl, old, sl, pi, na, sl, pi), "sort.Slice: a permutation")
+	fc.assume(fmt.Sprintf("(forall ((|j| Int)) (! (=> (and (<= 0 |j|) (< |j| %s)) (and (<= 0 (%s |j|)) (< (%s |j|) %s) (= (%s (%s |j|)) |j|))) :pattern ((%s |j|))))", n, inv, inv, n, pi, inv, inv), "sort.Slice: the permutation is onto")
+	g.set(fc.cur, k, fmt.Sprintf("(store %s (sarr %s) %s)", h, sl, na))
+	g.trusted["built-in model: sort.Slice / sort.SliceStable with a read-only comparator permute the slice's elements in place and change nothing else (sortedness is not assumed)"] = true
+	setResult(nil)
 	return true
 }
